@@ -24,6 +24,7 @@ FUNCS = CALLEES + [
     'supla_esp_on_remote_call_received', 'srpc_getdata', 'srpc_rd_free', 'uptime_sec', 'supla_log',
     'supla_esp_on_version_error', 'supla_esp_on_register_result', 'supla_esp_channelgroup_set_value',
     'supla_esp_channel_set_activity_timeout_result', 'supla_esp_update_url_result', 'supla_esp_get_channel__state',
+    'supla_esp_channel_config_result', 'srpc_ds_async_set_channel_config_result', 'supla_esp_set_channel_config', 'memset',
 ]
 FID = {n: i + 1 for i, n in enumerate(FUNCS)}
 
@@ -33,7 +34,7 @@ USER_FILES = ['supla_esp_gpio', 'supla_esp_input', 'supla_esp_cfg', 'supla_esp_c
 
 def _ir_refs(path):
     """{function or '<global>': set(referenced global symbols)} of one C file"""
-    cmd = ['clang', '-S', '-emit-llvm', '-O0', '-w', '-o', '-'] + G.dev_flags(G.REPO) + ['-DSPI_FLASH_SIZE_MAP=2', path]
+    cmd = ['clang', '-S', '-emit-llvm', '-O0', '-w', '-o', '-'] + G.dev_flags(G.REPO) + ['-DSPI_FLASH_SIZE_MAP=2', '-DVERIF_RETREIVE_CHANNEL_CONFIG', path]
     r = subprocess.run(cmd, capture_output=True, text=True)
     if r.returncode != 0:
         raise RuntimeError('clang -emit-llvm failed for %s: %s' % (path, r.stderr[-800:]))
@@ -80,6 +81,9 @@ def _make_body():
                         dispatch.add(tuple(_enc(s)))
     body = ''.join(_row('CALLSITES', r) for r in sorted(callsites))
     body += ''.join(_row('DISPATCH', r) for r in sorted(dispatch))
+    d, r = _sat_shape()
+    body += '  fprintf(stdout, "I SAT_DISARM_GUARDED %d\\n");\n' % d
+    body += '  fprintf(stdout, "I SAT_RESET_GUARDED %d\\n");\n' % r
     # (call id, payload size accepted by srpc_getdata) of the calls a device handles: only for the case generator (json)
     for cid, size in VALID_SIZES:
         body += '  fprintf(stdout, "L VALIDSIZES %%d %%d\\n", (int)(%s), (int)(%s));\n' % (cid, size)
@@ -103,6 +107,26 @@ VALID_SIZES = [
     ('SUPLA_SD_CALL_SET_CHANNEL_CONFIG_RESULT', 'sizeof(TSDS_SetChannelConfigResult)'),
     ('SUPLA_DCS_CALL_GET_USER_LOCALTIME_RESULT', 'sizeof(TSDC_UserLocalTimeResult) - SUPLA_TIMEZONE_MAXSIZE'),
 ]
+
+def _sat_shape():
+    """where, inside supla_esp_input_set_active_triggers, the timer is disarmed and the click counter reset:
+    1 = only inside the `if (prev_triggers != input_cfg->active_triggers)` block, 0 = (also) elsewhere / missing"""
+    src = open(os.path.join(G.REPO, 'src', 'user', 'supla_esp_input.c')).read()
+    src = re.sub(r'/\*.*?\*/', '', src, flags=re.S); src = re.sub(r'//[^\n]*', '', src)
+    m = re.search(r'supla_esp_input_set_active_triggers\s*\([^)]*\)\s*\{', src)
+    if not m: return 0, 0
+    i = m.end(); depth = 1
+    while i < len(src) and depth:
+        depth += {'{': 1, '}': -1}.get(src[i], 0); i += 1
+    body = src[m.end():i]
+    g = re.search(r'if\s*\(\s*prev_triggers\s*!=\s*input_cfg->active_triggers\s*\)\s*\{', body)
+    if not g: return 0, 0
+    j = g.end(); depth = 1
+    while j < len(body) and depth:
+        depth += {'{': 1, '}': -1}.get(body[j], 0); j += 1
+    inner = body[g.end():j]; outer = body[:g.start()] + body[j:]
+    def only_inner(pat): return 1 if (len(re.findall(pat, inner)) == 1 and not re.findall(pat, outer)) else 0
+    return (only_inner(r'os_timer_disarm\s*\(\s*&\s*input_cfg->timer\s*\)'), only_inner(r'input_cfg->click_counter\s*=\s*0\s*;'))
 
 class _LazyGroup(dict):
     """the call-site scan runs only when this group is actually generated"""
@@ -205,8 +229,18 @@ G.GROUPS['C12Consts'] = _LazyGroup(
         ('CAP_TG3', 'SUPLA_ACTION_CAP_TOGGLE_x3'), ('CAP_TG4', 'SUPLA_ACTION_CAP_TOGGLE_x4'),
         ('CAP_TG5', 'SUPLA_ACTION_CAP_TOGGLE_x5'),
         ('CAP_TURN_ON', 'SUPLA_ACTION_CAP_TURN_ON'), ('CAP_TURN_OFF', 'SUPLA_ACTION_CAP_TURN_OFF'),
+        ('CALL_SET_CHANNEL_CONFIG', 'SUPLA_SD_CALL_SET_CHANNEL_CONFIG'),
+        ('CALL_GET_CHANNEL_CONFIG_RESULT', 'SUPLA_SD_CALL_GET_CHANNEL_CONFIG_RESULT'),
+        ('CHCFG_SIZE', 'sizeof(TSD_ChannelConfig)'), ('CHCFG_MAX', 'SUPLA_CHANNEL_CONFIG_MAXSIZE'),
+        ('CHCFG_OFF_CHANNEL', _off('TSD_ChannelConfig', 'ChannelNumber')), ('CHCFG_OFF_FUNC', _off('TSD_ChannelConfig', 'Func')),
+        ('CHCFG_OFF_TYPE', _off('TSD_ChannelConfig', 'ConfigType')), ('CHCFG_OFF_CFGSIZE', _off('TSD_ChannelConfig', 'ConfigSize')),
+        ('CHCFG_OFF_CONFIG', _off('TSD_ChannelConfig', 'Config')),
+        ('FUNC_ACTIONTRIGGER', 'SUPLA_CHANNELFNC_ACTIONTRIGGER'), ('ATCFG_SIZE', 'sizeof(TChannelConfig_ActionTrigger)'),
+        ('ATCFG_OFF_ACTIONS', _off('TChannelConfig_ActionTrigger', 'ActiveActions')),
+        ('CHANNEL_MAX', '8 /* CHANNEL_MAX_COUNT is private to supla_esp_devconn.c */'),
         ('CFG_SECTOR_', 'CFG_SECTOR'),
         ('CFG_SIZE', 'sizeof(SuplaEspCfg)'),
     ] + [('FN_' + n, str(i)) for n, i in FID.items()],
-    extra_names=['CALLSITES', 'DISPATCH'],
+    extra_names=['CALLSITES', 'DISPATCH', 'SAT_DISARM_GUARDED', 'SAT_RESET_GUARDED'],
+    flags=['-DVERIF_RETREIVE_CHANNEL_CONFIG'],
 )
